@@ -152,6 +152,88 @@ func (d *DExpr) Coq() string {
 	panic("bad DExpr kind " + d.K)
 }
 
+// Respelled returns the expression with every string / integer constant written in another way that has the same value --
+// style 0: a raw string literal / a hexadecimal literal; 1: escape sequences / a legacy octal literal; 2: a concatenation / a
+// sum; 3: the name of a constant, whose declarations are returned as lines for Rule.Locals. changed: a constant was found.
+func Respelled(d *DExpr, style int) (out *DExpr, locals string, changed bool) {
+	n := 0
+	var sb strings.Builder
+	var walk func(d *DExpr, operand bool) *DExpr
+	walk = func(d *DExpr, operand bool) *DExpr { // operand: of a comparison (a Text: the constant must stay untyped)
+		if d == nil {
+			return nil
+		}
+		c := *d
+		switch {
+		case d.K == "str" && d.Raw == "":
+			changed = true
+			lit := strconv.Quote(d.S)
+			switch style {
+			case 0:
+				if !strings.ContainsAny(d.S, "`\r") {
+					lit = "`" + d.S + "`"
+				}
+			case 1:
+				var e strings.Builder
+				e.WriteByte('"')
+				for i := 0; i < len(d.S); i++ {
+					if i%2 == 0 {
+						fmt.Fprintf(&e, "\\x%02x", d.S[i])
+					} else {
+						fmt.Fprintf(&e, "\\%03o", d.S[i])
+					}
+				}
+				e.WriteByte('"')
+				lit = e.String()
+			case 2:
+				k := len(d.S) / 2
+				lit = strconv.Quote(d.S[:k]) + " + " + strconv.Quote(d.S[k:])
+			default:
+				name := fmt.Sprintf("kArg%d", n)
+				n++
+				if operand {
+					fmt.Fprintf(&sb, "\tconst %s = %s\n", name, lit)
+				} else {
+					fmt.Fprintf(&sb, "\tconst %s string = %s\n", name, lit)
+				}
+				lit = name
+			}
+			c.Raw = lit
+			return &c
+		case d.K == "int" && d.Raw == "":
+			changed = true
+			abs, sign := d.Z, ""
+			if abs < 0 {
+				abs, sign = -abs, "-"
+			}
+			lit := strconv.FormatInt(d.Z, 10)
+			switch style {
+			case 0:
+				lit = sign + "0x" + strconv.FormatInt(abs, 16)
+			case 1:
+				lit = sign + "0" + strconv.FormatInt(abs, 8)
+			case 2:
+				lit = fmt.Sprintf("(%d + 1)", d.Z-1)
+			default:
+				name := fmt.Sprintf("kArg%d", n)
+				n++
+				fmt.Fprintf(&sb, "\tconst %s = %s\n", name, lit)
+				lit = name
+			}
+			c.Raw = lit
+			return &c
+		}
+		c.X, c.Y = walk(d.X, d.K == "binary"), walk(d.Y, d.K == "binary")
+		c.Args = nil
+		for _, a := range d.Args {
+			c.Args = append(c.Args, walk(a, false))
+		}
+		return &c
+	}
+	out = walk(d, false)
+	return out, sb.String(), changed
+}
+
 // Depth of the expression tree.
 func (d *DExpr) Depth() int {
 	n := 0
